@@ -24,11 +24,13 @@ type structCfg struct {
 }
 
 type structCase struct {
-	id     string
-	cfg    structCfg
-	obj    interface{}
-	decl   string
-	expect string
+	id  string
+	cfg structCfg
+	obj interface{}
+	// the same declaration with every tag key in snake_case (nil for hand-written cases)
+	objSnake interface{}
+	decl     string
+	expect   string
 	// the other models of the same FromObjects call (foreign-key targets), their order, and their declarations
 	others     []interface{}
 	childFirst bool
@@ -169,6 +171,20 @@ func main() {
 			fopts = append(fopts, sql_builder.WithPluralTableName())
 		}
 		ddlFlip := guard(func() string { fb := sql_builder.NewSqlBuilder(fopts...); mapping(fb); return fb.AddTable(c.obj) })
+		// the twin type with canonical tag keys (C10): the same text
+		ddlSnake := ""
+		if c.objSnake != nil {
+			ddlSnake = guard(func() string {
+				tb := sql_builder.NewSqlBuilder(bopts...)
+				m := map[string]string{}
+				for _, o := range append([]interface{}{c.objSnake}, c.others...) {
+					ob, tn := tb.GetTableName(o)
+					m[ob] = tn
+				}
+				tb.MappingTables(m)
+				return tb.AddTable(c.objSnake)
+			})
+		}
 		s := sqlize.NewSqlize(sopts...)
 		load := guard(func() string {
 			if err := s.FromObjects(objs...); err != nil {
@@ -198,8 +214,8 @@ func main() {
 		}
 		selfUp, selfDown := diffOf(func(z *sqlize.Sqlize) error { return z.FromObjects(objs...) })
 		dumpUp, dumpDown := diffOf(func(z *sqlize.Sqlize) error { return z.FromString(dump) })
-		fmt.Fprintf(w, "(case %s struct (cfg %s %v %v) (bcfg %v %v) %s %s %s %s %s %s %s %s (c03 %s %s %s %s))\n", c.id, c.cfg.dialect, c.cfg.lower, false,
+		fmt.Fprintf(w, "(case %s struct (cfg %s %v %v) (bcfg %v %v) %s %s %s %s %s %s %s %s (c03 %s %s %s %s) (snake %v %s))\n", c.id, c.cfg.dialect, c.cfg.lower, false,
 			c.cfg.comment, c.cfg.plural, c.decl, c.expect, q(ddl), q(ddlFlip), q(load), q(dump), q(hash), c.extra,
-			q(selfUp), q(selfDown), q(dumpUp), q(dumpDown))
+			q(selfUp), q(selfDown), q(dumpUp), q(dumpDown), c.objSnake != nil, q(ddlSnake))
 	}
 }
